@@ -80,6 +80,20 @@ pub trait El: Num + NumCast + PartialOrd + Copy + Debug + Send + ToPrimitive + '
     fn just_above(self) -> Self;
     /// the negative zero of the type, if it has one
     fn neg_zero() -> Option<Self>;
+    /// spacing of the knots in the variant with fold-colliding queries (wide enough for the
+    /// upper half of the bit pattern to differ between in-range values)
+    fn wide_step() -> f64;
+    /// values next to `t` whose bit pattern collides with that of `self` under xor / sum of the two
+    /// halves of the pattern, or has the same lower half
+    fn fold_companions(self, t: Self) -> Vec<Self>;
+}
+fn comp64(a: u64, t: u64) -> [u64; 3] {
+    let (ha, la, ht) = ((a >> 32) as u32, a as u32, (t >> 32) as u32);
+    [ha ^ la ^ ht, ha.wrapping_add(la).wrapping_sub(ht), la].map(|lo| ((ht as u64) << 32) | lo as u64)
+}
+fn comp32(a: u32, t: u32) -> [u32; 3] {
+    let (ha, la, ht) = (a >> 16, a & 0xffff, t >> 16);
+    [(ha ^ la ^ ht) & 0xffff, ha.wrapping_add(la).wrapping_sub(ht) & 0xffff, la].map(|lo| (ht << 16) | lo)
 }
 impl El for f64 {
     fn just_above(self) -> Self {
@@ -87,6 +101,12 @@ impl El for f64 {
     }
     fn neg_zero() -> Option<Self> {
         Some(-0.0)
+    }
+    fn wide_step() -> f64 {
+        1.0
+    }
+    fn fold_companions(self, t: Self) -> Vec<Self> {
+        comp64(self.to_bits(), t.to_bits()).iter().map(|&b| f64::from_bits(b)).collect()
     }
 }
 impl El for f32 {
@@ -96,6 +116,12 @@ impl El for f32 {
     fn neg_zero() -> Option<Self> {
         Some(-0.0)
     }
+    fn wide_step() -> f64 {
+        1.0
+    }
+    fn fold_companions(self, t: Self) -> Vec<Self> {
+        comp32(self.to_bits(), t.to_bits()).iter().map(|&b| f32::from_bits(b)).collect()
+    }
 }
 impl El for i32 {
     fn just_above(self) -> Self {
@@ -104,6 +130,12 @@ impl El for i32 {
     fn neg_zero() -> Option<Self> {
         None
     }
+    fn wide_step() -> f64 {
+        131072.0
+    }
+    fn fold_companions(self, t: Self) -> Vec<Self> {
+        comp32(self as u32, t as u32).iter().map(|&b| b as i32).collect()
+    }
 }
 impl El for i64 {
     fn just_above(self) -> Self {
@@ -111,6 +143,12 @@ impl El for i64 {
     }
     fn neg_zero() -> Option<Self> {
         None
+    }
+    fn wide_step() -> f64 {
+        8589934592.0
+    }
+    fn fold_companions(self, t: Self) -> Vec<Self> {
+        comp64(self as u64, t as u64).iter().map(|&b| b as i64).collect()
     }
 }
 
@@ -188,6 +226,38 @@ fn query_vals<T: El>(dq: &str, hi: f64, salt: usize, variant: u8) -> Vec<T> {
     v
 }
 
+/// variant 7: a batch of 70 in-range values over knots `i * step`: pairs (A, B) next to each other
+/// where B lies in another interval than A and collides with it under a fold of the bit pattern,
+/// then knots and interior points in turn
+fn query_vals_colliding<T: El>(knots: usize, step: f64) -> Vec<T> {
+    let float = T::neg_zero().is_some();
+    let hi = (knots - 1) as f64 * step;
+    let anchors: Vec<f64> = if float { vec![1.0, 0.3, 2.0, 1.7] } else { vec![1.0, 5.0, step + 1.0] };
+    let mut v: Vec<T> = vec![];
+    for &a in &anchors {
+        let a: T = el(a);
+        for seg in 0..knots - 1 {
+            for off in if float { [0.5, 0.3] } else { [5.0, 77.0] } {
+                let t: T = el(seg as f64 * step + off);
+                for b in a.fold_companions(t) {
+                    let bf = b.to_f64().unwrap_or(f64::NAN);
+                    let seg_of = |x: f64| ((x / step).floor() as usize).min(knots - 2);
+                    if bf > 0.0 && bf < hi && seg_of(bf) != seg_of(a.to_f64().unwrap()) && b != a && v.len() < 60 {
+                        v.push(a);
+                        v.push(b);
+                    }
+                }
+            }
+        }
+    }
+    let mut k = 0usize;
+    while v.len() < 70 {
+        v.push(el::<T>(((k % knots) as f64 * step + if float && k % 2 == 1 { 0.25 } else { 0.0 }).min(hi)));
+        k += 1;
+    }
+    v
+}
+
 fn to_bits<T: El, D: Dimension>(a: &Array<T, D>) -> Vec<u64> {
     a.iter().map(|v| v.to_f64().unwrap().to_bits()).collect()
 }
@@ -222,8 +292,9 @@ macro_rules! inst1 {
             let nd = nd_of(stringify!($d), false);
             let shape = data_shape(nd, false, variant);
             let data = mk_data::<$t>(&shape, variant).into_dimensionality::<$d>().expect("data rank");
-            let x: Array1<$t> = (0..shape[0]).map(|i| el::<$t>(i as f64)).collect();
-            let qv = query_vals::<$t>(stringify!($dq), (shape[0] - 1) as f64, 0, variant);
+            let step = if variant == 7 { <$t as El>::wide_step() } else { 1.0 };
+            let x: Array1<$t> = (0..shape[0]).map(|i| el::<$t>(i as f64 * step)).collect();
+            let qv = if variant == 7 { query_vals_colliding::<$t>(shape[0], step) } else { query_vals::<$t>(stringify!($dq), (shape[0] - 1) as f64, 0, variant) };
             let qs = query_shape(stringify!($dq), qv.len());
             let q = stored::<$t, $dq>(&qs, &qv, variant);
             let Ok(ip) = Interp1DBuilder::new(st!($s, data)).x(st!($s, x)).build() else { return None };
@@ -292,10 +363,11 @@ macro_rules! inst2 {
             let nd = nd_of(stringify!($d), true);
             let shape = data_shape(nd, true, variant);
             let data = mk_data::<$t>(&shape, variant).into_dimensionality::<$d>().expect("data rank");
-            let x: Array1<$t> = (0..shape[0]).map(|i| el::<$t>(i as f64)).collect();
+            let step = if variant == 7 { <$t as El>::wide_step() } else { 1.0 };
+            let x: Array1<$t> = (0..shape[0]).map(|i| el::<$t>(i as f64 * step)).collect();
             let y: Array1<$t> = (0..shape[1]).map(|i| el::<$t>(i as f64 * 2.0)).collect();
-            let qxv = query_vals::<$t>(stringify!($dq), (shape[0] - 1) as f64, 0, variant);
-            let qyv = query_vals::<$t>(stringify!($dq), (shape[1] - 1) as f64 * 2.0, 1, variant);
+            let qxv = if variant == 7 { query_vals_colliding::<$t>(shape[0], step) } else { query_vals::<$t>(stringify!($dq), (shape[0] - 1) as f64, 0, variant) };
+            let qyv = if variant == 7 { (0..qxv.len()).map(|k| el::<$t>(((k % shape[1]) as f64 * 2.0).min((shape[1] - 1) as f64 * 2.0))).collect() } else { query_vals::<$t>(stringify!($dq), (shape[1] - 1) as f64 * 2.0, 1, variant) };
             let qs = query_shape(stringify!($dq), qxv.len());
             let qx = stored::<$t, $dq>(&qs, &qxv, variant);
             let qy = stored::<$t, $dq>(&qs, &qyv, variant);
@@ -407,14 +479,14 @@ fn body(ctx: &Ctx) -> (Summary, Meta) {
     let sum = run_jobs(ctx, "instantiations", &jobs, |&i| TABLE[i].0.to_string(), |&i| {
         let (name0, kind, d, dq, s, t, f) = TABLE[i];
         let mut out = JobOut::default();
-      for variant in 0u8..7 {
+      for variant in 0u8..8 {
         if variant == 3 && (t == "i32" || t == "i64") {
             continue; // no signed zero
         }
-        if variant == 5 && dq == "Ix0" {
-            continue; // a single query has no leading buffer axis
+        if (variant == 5 || variant == 7) && dq == "Ix0" {
+            continue; // a single query has no leading buffer axis / is no batch
         }
-        let name = format!("{name0}{}", ["", ":one-element-out-of-range", ":zero-lane-data+out-of-range", ":signed-zeros", ":one-element-just-above-the-range", ":buffer-one-row-too-long+out-of-range", ":query-stored-back-to-front+two-out-of-range"][variant as usize]);
+        let name = format!("{name0}{}", ["", ":one-element-out-of-range", ":zero-lane-data+out-of-range", ":signed-zeros", ":one-element-just-above-the-range", ":buffer-one-row-too-long+out-of-range", ":query-stored-back-to-front+two-out-of-range", ":70-element-batch-with-fold-colliding-values"][variant as usize]);
         let name = name.as_str();
         // (a valid build that fails is C10's finding, not this property's)
         let Some(r) = f(variant) else {
@@ -455,7 +527,7 @@ fn body(ctx: &Ctx) -> (Summary, Meta) {
                 continue; // judged below: same class as the general path
             }
             if let Err(p) = res {
-                if variant >= 1 && variant != 3 && !p.contains("cast_unchecked") && !p.contains("panicked") && p.contains("not in range") {
+                if variant >= 1 && variant != 3 && variant != 7 && !p.contains("cast_unchecked") && !p.contains("panicked") && p.contains("not in range") {
                     continue; // the expected OutOfBounds error
                 }
                 let is_cast = p.contains("cast_unchecked between different types");
@@ -515,7 +587,7 @@ fn body(ctx: &Ctx) -> (Summary, Meta) {
                 );
             }
         }
-        if variant >= 1 && variant != 3 && variant != 5 {
+        if variant >= 1 && variant != 3 && variant != 5 && variant != 7 {
             // with an out-of-range element all paths must agree on the verdict (message included)
             let v = |x: &Result<Vec<u64>, String>| x.as_ref().map(|_| ()).map_err(|e| e.clone());
             if v(&r.batch) != v(&r.singles) || v(&r.batch) != v(&r.general) || v(&r.batch) != v(&r.batch_into) {
@@ -525,7 +597,7 @@ fn body(ctx: &Ctx) -> (Summary, Meta) {
                     case(),
                 );
             }
-        } else if (variant == 0 || variant == 3) && (r.singles.is_err() || r.general.is_err()) {
+        } else if (variant == 0 || variant == 3 || variant == 7) && (r.singles.is_err() || r.general.is_err()) {
             out.violate(format!("{name}:reference"), format!("reference paths failed: {:?} / {:?}", r.singles.as_ref().err(), r.general.as_ref().err()), case());
         }
         if out.sample.is_none() {
@@ -542,7 +614,7 @@ fn body(ctx: &Ctx) -> (Summary, Meta) {
         out
     }));
     let meta = Meta {
-        rule: "every instantiation of {data Ix1..Ix6, IxDyn} x {query Ix0, Ix1, Ix2 (m,1), Ix3 (1,m,1), IxDyn of runtime rank 1} x {owned, view, shared storage of data, axes and queries; in 2-D xs and ys (and x, y) get different storage kinds} x {f64, f32, i32, i64} x {Interp1D, Interp2D} is executed with Linear / Bilinear. The hook inside cast_unchecked asserts type_name / size / align equality on every executed cast and counts them: 2 (Interp1D) / 3 (Interp2D) casts iff the static query type is Ix1, 0 otherwise, for interp_array and interp_array_into alike; outputs of the fast path, of element-wise interp and of the general path (dynamic rank-1 query) are bit-identical. Each instantiation is run seven times: all queries in range; one (not the last) element out of range; data with a zero-length last trailing axis plus an out-of-range element; +0.0 and -0.0 queries next to each other on data whose first-knot samples are -0.0 (float types); one element one ulp (one unit) above the last knot; a buffer with one row too many plus an out-of-range element (fast and general *_into must fail in the same way); the query stored back to front (negative stride) with two different out-of-range elements - the verdicts (Ok / the OutOfBounds message) of all paths must agree. A counting allocator (per thread) compares the heap bytes still held after 8 further calls with the static query type and with the dynamic query (results dropped): they must be equal. Phase edge-knot-batches (shared with C09): on 2688 axes with knots at round positions the fast path (static rank-1 batch), the general path (dynamic rank-1 batch) and single queries before and after the batches agree bit for bit. Non-trivial = instantiation whose static query type is Ix1 (the cast is executed).".into(),
+        rule: "every instantiation of {data Ix1..Ix6, IxDyn} x {query Ix0, Ix1, Ix2 (m,1), Ix3 (1,m,1), IxDyn of runtime rank 1} x {owned, view, shared storage of data, axes and queries; in 2-D xs and ys (and x, y) get different storage kinds} x {f64, f32, i32, i64} x {Interp1D, Interp2D} is executed with Linear / Bilinear. The hook inside cast_unchecked asserts type_name / size / align equality on every executed cast and counts them: 2 (Interp1D) / 3 (Interp2D) casts iff the static query type is Ix1, 0 otherwise, for interp_array and interp_array_into alike; outputs of the fast path, of element-wise interp and of the general path (dynamic rank-1 query) are bit-identical. Each instantiation is run eight times (the eighth: a batch of 70 in-range values in which pairs of neighbours lie in different intervals but collide under xor / sum of the halves of their bit pattern or share the lower half; integer axes are spaced 2^17 / 2^33 apart for that): all queries in range; one (not the last) element out of range; data with a zero-length last trailing axis plus an out-of-range element; +0.0 and -0.0 queries next to each other on data whose first-knot samples are -0.0 (float types); one element one ulp (one unit) above the last knot; a buffer with one row too many plus an out-of-range element (fast and general *_into must fail in the same way); the query stored back to front (negative stride) with two different out-of-range elements - the verdicts (Ok / the OutOfBounds message) of all paths must agree. A counting allocator (per thread) compares the heap bytes still held after 8 further calls with the static query type and with the dynamic query (results dropped): they must be equal. Phase edge-knot-batches (shared with C09): on 2688 axes with knots at round positions the fast path (static rank-1 batch), the general path (dynamic rank-1 batch) and single queries before and after the batches agree bit for bit. Non-trivial = instantiation whose static query type is Ix1 (the cast is executed).".into(),
         bounds: format!("{} instantiations (the whole finite table)", TABLE.len()),
         assumptions: vec!["type_name equality is a monitor for type identity, not a UB detector".into()],
         extra: vec![],
